@@ -1,15 +1,82 @@
 /-
-Driver.IdlSuite — suite `idl` (stub: replaced by the owner of the suite).
-Must define `idlLine : String → String` (case line ↦ model observation line) and
-`idlPred : String → String → String → String` (property id, case line, implementation
-observation line ↦ "ok" | "fail <reason>").
+Driver.IdlSuite — suite `idl`: run Model.Idl on a case and print the observation in
+the canonical form of harness/src/suites/idl.rs.
 -/
 import Driver.Sx
+import VarlinkVerif.Model.Idl
+import VarlinkVerif.Pred.Idl
 
 namespace VV
+open Sx Idl
 
-def idlLine (_line : String) : String := "(stub)"
+def strSx (s : Str) : Sx := strAtom (String.ofList s)
 
-def idlPred (_prop _caseLine _obsLine : String) : String := "fail stub-suite"
+mutual
+partial def tySx : Ty → Sx
+  | .bool => .atom "bool"
+  | .int => .atom "int"
+  | .float => .atom "float"
+  | .string => .atom "string"
+  | .object => .atom "object"
+  | .typename n => .list [.atom "n", strSx n]
+  | .struct f => structSx f
+  | .enum e => enumSx e
+  | .array t => .list [.atom "a", tySx t]
+  | .dict t => .list [.atom "d", tySx t]
+  | .option t => .list [.atom "o", tySx t]
+partial def structSx (f : Fields) : Sx :=
+  .list (.atom "s" :: f.toList.map fun (n, t) => .list [strSx n, tySx t])
+partial def enumSx (e : List Str) : Sx := .list (.atom "e" :: e.map strSx)
+end
+
+def memberSx (m : Member) : Sx :=
+  match m.body with
+  | .typeStruct f => .list [strSx m.name, strSx m.doc, structSx f]
+  | .typeEnum e => .list [strSx m.name, strSx m.doc, enumSx e]
+  | .method i o => .list [strSx m.name, strSx m.doc, structSx i, structSx o]
+  | .error f => .list [strSx m.name, strSx m.doc, structSx f]
+
+def idlSx (i : IDL) : Sx :=
+  let look (keys : List Str) (m : List (Str × Member)) : List Sx :=
+    keys.map fun k => match lookupMap k m with
+      | some v => memberSx v
+      | none => .atom "missing"
+  .list [.atom "ok", strSx i.name, strSx i.doc, .atom "t",
+    .list (.atom "tk" :: i.typedefKeys.map strSx),
+    .list (.atom "mk" :: i.methodKeys.map strSx),
+    .list (.atom "ek" :: i.errorKeys.map strSx),
+    .list (.atom "t" :: look i.typedefKeys i.typedefs),
+    .list (.atom "m" :: look i.methodKeys i.methods),
+    .list (.atom "e" :: look i.errorKeys i.errors)]
+
+def outcomeSx : Outcome → Sx
+  | .ok i => idlSx i
+  | .parseError (some line) col =>
+    .list [.atom "parse-error", .atom (toString col), strSx line, strSx (displayParse line col)]
+  | .parseError none _ => .list [.atom "panic", strAtom "called `Option::unwrap()` on a `None` value"]
+  | .idlError msg => .list [.atom "idl-error", strSx msg, strSx (displayIdl msg)]
+
+def idlCaseText (line : String) : Option Str :=
+  match parse line with
+  | some (.list [.atom "idl", t]) => (asStr t).map String.toList
+  | _ => none
+
+def idlLine (line : String) : String :=
+  match idlCaseText line with
+  | some t => render (outcomeSx (tryFrom t))
+  | none => "(model-case-error)"
+
+def idlPred (prop caseLine obsLine : String) : String :=
+  match idlCaseText caseLine, parse obsLine with
+  | some t, some obs =>
+    let v : Option String :=
+      match prop with
+      | "C11" => P_C11 t obs
+      | "C12" => P_C12 t obs
+      | _ => some "unknown-property"
+    match v with
+    | none => "ok"
+    | some r => "fail " ++ r
+  | _, _ => "fail unparsable-line"
 
 end VV
